@@ -655,14 +655,12 @@ def gnuext_part(chk, tools, n):
                     'c2m and gcc lay out a declaration with zero-size members (GNU C) differently: %s  c2m[%s] gcc[%s]' % (txt, rr[0]['c2m'], rr[0]['gcc']))
 
 
-# A c2m callee loads the pieces of an aggregate it returns in registers straight from the object, with accesses of up
-# to 7 bytes beyond it (theorem ret_pieces_within is tight): 3 bytes as I32, 5..7 and the tail of 9..15 as 8 bytes.  Only
-# observable when the object ends a mapping.  Genuine defect of /repo (fixes/C08-10.patch).  While the tree has it, the
-# probe is a KNOWN finding if KNOWN_FINDINGS.txt lists the signature, else a logged note; on a repaired tree every
-# aggregate of the sized stream must survive at the end of a page, loads and stores.
-PAGEEND_SIG = 'return:reads-beyond-object'
-PAGEEND_WITNESS = 's{ n a3 bchar }'
-PAGEEND_WITNESSES = [PAGEEND_WITNESS, 's{ n a5 bchar }', 's{ n a9 bchar }']   # I32, I64, second eightbyte
+# Aggregates that end a mapping (the last sizeof bytes before an inaccessible page): returned by value by a c2m callee
+# (loads) and assigned from a call by a c2m caller (stores).  Before /repo 2a518cc5 (= fixes/C08-10.patch) a callee loaded
+# the pieces straight from the object with accesses of up to 7 bytes beyond it (theorem ret_pieces_within is tight: 3 bytes
+# as I32, 5..7 and the tail of 9..15 as 8 bytes) and was killed there.  Mandatory on every run: the three witnesses first,
+# then the whole sized stream; every aggregate that does not survive is a finding with the page-end replay.
+PAGEEND_WITNESSES = ['s{ n a3 bchar }', 's{ n a5 bchar }', 's{ n a9 bchar }']   # I32, I64, second eightbyte
 
 
 def pageend_run(tools, decls, mode):
@@ -678,23 +676,27 @@ def pageend_run(tools, decls, mode):
 
 
 def pageend_part(chk, tools, decls):
-    w = G.parse_text(PAGEEND_WITNESS)
-    chk.count('E ' + PAGEEND_WITNESS)
-    for mode in ('-ei', '-eg'):
-        fails = []
-        for wt in PAGEEND_WITNESSES:
-            rc, st, err = pageend_run(tools, [G.parse_text(wt)], mode)
-            if st.get(0) != 'ok':
-                fails.append((wt, st.get(0, 'no output'), rc))
-        if fails:
-            what = ('a c2m function returning by value a struct of 3, 5 or 9 bytes that ends a mapping reads beyond it and is killed (%s: %s); '
-                    'gcc reads sizeof bytes' % (mode, '; '.join('%s: %s, rc %d' % f for f in fails)))
-            chk.cov['return_reads_beyond_object'] = 'present on this tree (fixes/C08-10.patch): ' + what
-            if any(sig == PAGEEND_SIG for sig, _ in chk.known):
-                chk.finding(PAGEEND_SIG, dict(kind='pageend', decl=fails[0][0], mode=mode, rc=fails[0][2]), what)
-            else:
-                chk.log('NOTE (not reported, fixes/C08-10.patch pending): ' + what)
+    seen = set()
+
+    def report(t, mode):
+        txt = G.ty_text(t)
+        if txt in seen:
             return
+        seen.add(txt)
+        rc1, st1, _ = pageend_run(tools, [t], mode)
+        chk.finding('pageend:' + txt, dict(kind='pageend', decl=txt, mode=mode, rc=rc1, state=st1.get(0, 'killed')),
+                    'an aggregate that ends a mapping (last sizeof bytes before an inaccessible page) is not returned by value / assigned '
+                    'from a call intact by c2m code: the process is killed or the bytes differ (%s: %s, rc %d; gcc accesses sizeof bytes): %s'
+                    % (mode, st1.get(0, 'killed'), rc1, txt))
+
+    for mode in ('-ei', '-eg'):
+        for wt in PAGEEND_WITNESSES:
+            t = G.parse_text(wt)
+            chk.count('E ' + wt)
+            rc, st, err = pageend_run(tools, [t], mode)
+            chk.dist('page_end_returns', 'ok' if st.get(0) == 'ok' else 'BAD')
+            if st.get(0) != 'ok':
+                report(t, mode)
     for mode in ('-ei', '-eg'):
         rc, st, err = pageend_run(tools, decls, mode)
         for i, t in enumerate(decls):
@@ -703,13 +705,12 @@ def pageend_part(chk, tools, decls):
         chk.dist('page_end_returns', 'ok', len(decls) - len(bad))
         chk.dist('page_end_returns', 'BAD', len(bad))
         if bad:
-            t = decls[bad[0]]
-            rc1, st1, _ = pageend_run(tools, [t], mode)
-            chk.finding('pageend:' + G.ty_text(t), dict(kind='pageend', decl=G.ty_text(t), mode=mode, rc=rc1, state=st1.get(0)),
-                        'an aggregate that ends a mapping is not returned / assigned from a call intact by c2m code (%s: %s, rc %d): %s'
-                        % (mode, st1.get(0, 'killed'), rc1, G.ty_text(t)))
-            return
-    chk.log('aggregates at the end of a page: %d returned and assigned from a call, all intact' % len(decls))
+            # the process died at the first one: everything after it did not run in this batch
+            report(decls[bad[0]], mode)
+    if not seen:
+        chk.log('aggregates at the end of a page: %d + %d witnesses returned and assigned from a call, all intact' % (len(decls), len(PAGEEND_WITNESSES)))
+    else:
+        chk.log('aggregates at the end of a page: %d not intact / killed' % len(seen))
 
 
 def libc_part(chk, tools):
